@@ -852,6 +852,39 @@ type scriptCase struct {
 	Main    string            `json:"main"`
 	Modules map[string]string `json:"modules"`
 	Host    []string          `json:"host_vars,omitempty"`
+	// ObjMods: modules provided by the embedder as objects (name ↦ "<kind>:<n>", see objModule)
+	ObjMods map[string]string `json:"object_modules,omitempty"`
+}
+
+// objImportable: a module the embedder provides as a ready-made object.
+type objImportable struct{ obj tengo.Object }
+
+func (o objImportable) Import(string) (interface{}, error) { return o.obj, nil }
+
+// objModule builds the object a descriptor names: an immutable map / map / array / int carrying the number n
+// (the immutable map has no __module_name__ unless the kind is imapnamed).
+func objModule(desc string) tengo.Object {
+	kind, num := desc, int64(0)
+	if i := strings.Index(desc, ":"); i >= 0 {
+		kind = desc[:i]
+		fmt.Sscan(desc[i+1:], &num)
+	}
+	v := &tengo.Int{Value: num}
+	switch kind {
+	case "imap":
+		return &tengo.ImmutableMap{Value: map[string]tengo.Object{"v": v}}
+	case "imapnamed":
+		return &tengo.ImmutableMap{Value: map[string]tengo.Object{"v": v, "__module_name__": &tengo.String{Value: fmt.Sprint("named", num)}}}
+	case "map":
+		return &tengo.Map{Value: map[string]tengo.Object{"v": v}}
+	case "arr":
+		return &tengo.Array{Value: []tengo.Object{v}}
+	case "iarr":
+		return &tengo.ImmutableArray{Value: []tengo.Object{v}}
+	case "str":
+		return &tengo.String{Value: fmt.Sprint("s", num)}
+	}
+	return v
 }
 
 type scriptOut struct {
@@ -876,6 +909,9 @@ func runScriptCase(sc *scriptCase) (o scriptOut) {
 	sort.Strings(names)
 	for _, n := range names {
 		mm.AddSourceModule(n, []byte(sc.Modules[n]))
+	}
+	for n, d := range sc.ObjMods {
+		mm.Add(n, objImportable{objModule(d)})
 	}
 	mm.AddBuiltinModule("cnt", map[string]tengo.Object{"tick": &tengo.UserFunction{Name: "tick", Value: func(args ...tengo.Object) (tengo.Object, error) {
 		o.ticks++
@@ -1029,6 +1065,65 @@ func immutable(r *lib.RNG, n int) {
 		}
 		if o.globals["out"] != "(b 1)" {
 			sviol(sc, "import-without-export-not-undefined", o.String(), "undefined", "the value of an import is undefined without an export")
+		}
+	}
+}
+
+// objectModules: modules the embedder provides as objects (custom Importable returning an Object). Every import
+// expression must yield the object of the module it names, whatever other modules are present and however often
+// and in whatever order they are imported (the constants are de-duplicated by Script.Compile).
+func objectModules(r *lib.RNG, n int) {
+	kinds := []string{"imap", "imap", "imap", "map", "arr", "iarr", "int", "str", "imapnamed"}
+	read := func(kind, v string) string {
+		switch kind {
+		case "imap", "map", "imapnamed":
+			return v + ".v"
+		case "arr", "iarr":
+			return v + "[0]"
+		}
+		return v
+	}
+	for i := 0; i < n; i++ {
+		k := 2 + r.Intn(3)
+		sc := &scriptCase{Stream: "objmods", Modules: map[string]string{}, ObjMods: map[string]string{}}
+		type m struct {
+			name, kind string
+			num        int
+		}
+		var ms []m
+		for j := 0; j < k; j++ {
+			x := m{fmt.Sprintf("om%d", j), lib.Pick(r, kinds), 10 + j}
+			ms = append(ms, x)
+			sc.ObjMods[x.name] = fmt.Sprintf("%s:%d", x.kind, x.num)
+		}
+		var sb strings.Builder
+		want := map[string]string{}
+		nImp := k + r.Intn(4)
+		for j := 0; j < nImp; j++ {
+			x := ms[j%k]
+			if j >= k {
+				x = lib.Pick(r, ms)
+			}
+			fmt.Fprintf(&sb, "i%d := import(%q)\nr%d := %s\n", j, x.name, j, read(x.kind, fmt.Sprintf("i%d", j)))
+			if x.kind == "str" {
+				want[fmt.Sprintf("r%d", j)] = lib.Canon(&tengo.String{Value: fmt.Sprint("s", x.num)})
+			} else {
+				want[fmt.Sprintf("r%d", j)] = fmt.Sprintf("(i %d)", x.num)
+			}
+		}
+		sc.Main = sb.String()
+		o := runScriptCase(sc)
+		res.Count(sc.Stream, sc.Main+fmt.Sprint(sc.ObjMods), true)
+		if o.compileErr != "" || o.panicked != "" || o.runErr != "" {
+			sviol(sc, "object-module-import-fails", o.String(), "every import yields its module's object", "embedder-provided object modules")
+			continue
+		}
+		for name, w := range want {
+			if o.globals[name] != w {
+				sviol(sc, "import-yields-another-modules-object", fmt.Sprintf("%s = %s", name, o.globals[name]), name+" = "+w,
+					"the value an import expression yields is what the named module provides")
+				break
+			}
 		}
 	}
 }
@@ -1508,6 +1603,7 @@ func main() {
 	isolation(rng.Fork(), f.Scale(300, 5000))
 	immutable(rng.Fork(), f.Scale(200, 3000))
 	derived(rng.Fork(), f.Scale(600, 6000))
+	objectModules(rng.Fork(), f.Scale(150, 3000))
 	rerun(rng.Fork(), f.Scale(100, 2000))
 	emitAndRun(rng.Fork(), f.Scale(100, 2000))
 	nofs(rng.Fork(), f.Scale(150, 1500))
